@@ -13,8 +13,11 @@
      llt_lower           (lower, forward,  /l_rr): |b - L y^|_r <= GG (r+1) * (|L||y^|)_r + (..) eta
      llt_upper           (L^T, backward,   /l_cc): |b - L^T x^|_c <= GG (n-c) * (|L^T||x^|)_c + (..) eta
      ldl_upper           (D L^T, /d_c first):      |b - D L^T x^|_c <= GG (n-c) * |d_c| (|L^T||x^|)_c + (..) eta
-   and, when eta = 0, the equivalent backward form: y^ is the EXACT solution of (T + dT) y^ = b with
-   |dT| <= gamma_k |T| componentwise (Oettli-Prager construction).
+   [theorems ..._residual; the ..._backward_error theorems restate them with gamma_k under n eps < 1], the equivalent
+   backward form [theorems ..._perturbed]: y^ is the EXACT solution of (T + dT) y^ = b + db with |dT| <= gamma_k |T|
+   componentwise and |db| <= O(n) eta (explicit Oettli-Prager construction, no choice axiom; db = 0 when eta = 0),
+   the compositions plu_solve / ldl_solve / llt_solve stage by stage on GIVEN factors, and non-vacuity examples.
+   Binary64 instantiation: RoundSolve64.v.
    The factorisations' own backward error (|PA - LU| <= gamma_n |L||U| etc.) is NOT proved here. *)
 From Coq Require Import ZArith List Reals Lia Lra Psatz Bool.
 From LibaV Require Import Common.RoundOps.
@@ -952,4 +955,281 @@ Proof.
     + rewrite (rsum_ext _ (fun c => l c * y c + (r1 / S) * (Rabs (l c) * Rabs (y c)))).
       * rewrite rsum_plus, rsum_scal. fold S. unfold res. field. exact N0.
       * intros c _. rewrite <- (sg_mul (y c)). ring.
+Qed.
+
+Definition urow (lo : nat) (l : nat -> R) : nat -> R := fun c => if Nat.leb lo c then l c else 0.
+
+Lemma op_isum g t lo hi l y b :
+  0 <= g -> 0 <= t ->
+  Rabs (b - isum (fun c => l c * y c) lo hi) <= g * isum (fun c => Rabs (l c) * Rabs (y c)) lo hi + t ->
+  (forall c, (lo <= c)%nat -> Rabs (op_d g hi (urow lo l) y b c) <= g * Rabs (l c)) /\
+  Rabs (op_db g hi (urow lo l) y b) <= t /\
+  isum (fun c => (l c + op_d g hi (urow lo l) y b c) * y c) lo hi = b + op_db g hi (urow lo l) y b.
+Proof.
+  intros Hg Ht H.
+  assert (E1 : rsum (fun c => urow lo l c * y c) hi = isum (fun c => l c * y c) lo hi).
+  { unfold isum, urow. apply rsum_ext. intros c _. destruct (Nat.leb lo c); ring. }
+  assert (E2 : rsum (fun c => Rabs (urow lo l c) * Rabs (y c)) hi = isum (fun c => Rabs (l c) * Rabs (y c)) lo hi).
+  { unfold isum, urow. apply rsum_ext. intros c _. destruct (Nat.leb lo c); [reflexivity|rewrite Rabs_R0; ring]. }
+  rewrite <- E1, <- E2 in H.
+  destruct (op_spec g t hi (urow lo l) y b Hg Ht H) as (D & B & E).
+  split; [|split].
+  - intros c Hc. specialize (D c). unfold urow in D at 2. destruct (Nat.leb_spec lo c); [exact D|lia].
+  - exact B.
+  - rewrite <- E. unfold isum. apply rsum_ext. intros c _. unfold urow at 2.
+    destruct (Nat.leb_spec lo c) as [Hc|Hc]; [reflexivity|].
+    specialize (D c). unfold urow in D at 2. destruct (Nat.leb_spec lo c); [lia|].
+    rewrite Rabs_R0, Rmult_0_r in D.
+    assert (Z : op_d g hi (urow lo l) y b c = 0).
+    { destruct (Req_dec (op_d g hi (urow lo l) y b c) 0) as [Z|Z]; [exact Z|]. apply Rabs_pos_lt in Z. lra. }
+    rewrite Z. ring.
+Qed.
+
+Section Perturbed.
+Variable rnd : R -> R.
+Variables eps eta tiny : R.
+Hypothesis M : std_model rnd eps eta.
+Let QO := Rnd8_ops rnd tiny.
+
+Local Notation vg y r := (nth r y 0).
+
+Definition lrow (n : nat) (L : list R) (r : nat) : nat -> R := fun c => if Nat.ltb c r then mg n L r c else 1.
+
+Lemma lrow_sum n L r (f : nat -> R -> R) :
+  rsum (fun c => f c (lrow n L r c)) (S r) = rsum (fun c => f c (mg n L r c)) r + f r 1.
+Proof.
+  rewrite rsum_S. f_equal.
+  - apply rsum_ext. intros c Hc. unfold lrow. destruct (Nat.ltb_spec c r); [reflexivity|lia].
+  - unfold lrow. rewrite Nat.ltb_irrefl. reflexivity.
+Qed.
+
+Lemma small_k k n : (k <= n)%nat -> INR n * eps < 1 -> INR k * eps < 1.
+Proof. intros H Hn. pose proof (eps_ge0 _ _ _ M). apply le_INR in H. nra. Qed.
+
+(* y^ solves EXACTLY the unit lower triangular system (L + dL) y^ = b + db *)
+Theorem lower_solve_perturbed n (L b : list R) :
+  length L = (n * n)%nat -> length b = n -> INR n * eps < 1 ->
+  exists yh (dL : nat -> nat -> R) (db : nat -> R), plu_lower QO n L b = Some yh /\ length yh = n /\
+    forall r, (r < n)%nat ->
+      (forall c, (c < r)%nat -> Rabs (dL r c) <= gamma eps r * Rabs (mg n L r c)) /\
+      Rabs (dL r r) <= gamma eps r /\
+      Rabs (db r) <= 3 * INR r * (1 + gamma eps r) * eta /\
+      rsum (fun c => (mg n L r c + dL r c) * vg yh c) r + (1 + dL r r) * vg yh r = vg b r + db r.
+Proof.
+  intros LL Lb Hn. destruct (lower_solve_backward_error rnd eps eta tiny M n L b LL Lb Hn) as (yh & E & Ly & P).
+  exists yh, (fun r => op_d (gamma eps r) (S r) (lrow n L r) (fun c => vg yh c) (vg b r)),
+             (fun r => op_db (gamma eps r) (S r) (lrow n L r) (fun c => vg yh c) (vg b r)).
+  split; [exact E|]. split; [exact Ly|]. intros r Hr. specialize (P r Hr).
+  assert (Hre : INR r * eps < 1) by (apply (small_k r n); [lia|exact Hn]).
+  pose proof (gamma_ge0 _ _ _ M r Hre) as Hg.
+  assert (Ht : 0 <= 3 * INR r * (1 + gamma eps r) * eta).
+  { pose proof (pos_INR r). pose proof (eta_ge0 _ _ _ M). repeat apply Rmult_le_pos; lra. }
+  destruct (op_spec (gamma eps r) (3 * INR r * (1 + gamma eps r) * eta) (S r) (lrow n L r) (fun c => vg yh c) (vg b r) Hg Ht)
+    as (D & B & Sm).
+  - rewrite (lrow_sum n L r (fun c v => v * vg yh c)), (lrow_sum n L r (fun c v => Rabs v * Rabs (vg yh c))).
+    rewrite Rabs_R1, !Rmult_1_l. exact P.
+  - split; [|split; [|split]].
+    + intros c Hc. specialize (D c). unfold lrow in D at 2. destruct (Nat.ltb_spec c r); [exact D|lia].
+    + specialize (D r). unfold lrow in D at 2. rewrite Nat.ltb_irrefl, Rabs_R1, Rmult_1_r in D. exact D.
+    + exact B.
+    + rewrite <- Sm.
+      rewrite (lrow_sum n L r (fun c v => (v + op_d (gamma eps r) (S r) (lrow n L r) (fun c0 => vg yh c0) (vg b r) c) * vg yh c)).
+      reflexivity.
+Qed.
+
+(* x^ solves EXACTLY the upper triangular system (U + dU) x^ = b + db *)
+Theorem upper_solve_perturbed n (U b : list R) :
+  length U = (n * n)%nat -> length b = n -> (forall r, (r < n)%nat -> mg n U r r <> 0) -> INR n * eps < 1 ->
+  exists xh (dU : nat -> nat -> R) (db : nat -> R), plu_upper QO n U b = Some xh /\ length xh = n /\
+    forall r, (r < n)%nat ->
+      (forall c, (r <= c)%nat -> Rabs (dU r c) <= gamma eps (n - r) * Rabs (mg n U r c)) /\
+      Rabs (db r) <= (3 * INR (n - r) + Rabs (mg n U r r)) * (1 + gamma eps (n - r)) * eta /\
+      isum (fun c => (mg n U r c + dU r c) * vg xh c) r n = vg b r + db r.
+Proof.
+  intros LU Lb Hd Hn. destruct (upper_solve_backward_error rnd eps eta tiny M n U b LU Lb Hd Hn) as (xh & E & Lx & P).
+  exists xh, (fun r => op_d (gamma eps (n - r)) n (urow r (fun c => mg n U r c)) (fun c => vg xh c) (vg b r)),
+             (fun r => op_db (gamma eps (n - r)) n (urow r (fun c => mg n U r c)) (fun c => vg xh c) (vg b r)).
+  split; [exact E|]. split; [exact Lx|]. intros r Hr. specialize (P r Hr).
+  assert (Hre : INR (n - r) * eps < 1) by (apply (small_k (n - r) n); [lia|exact Hn]).
+  pose proof (gamma_ge0 _ _ _ M (n - r) Hre) as Hg.
+  assert (Ht : 0 <= (3 * INR (n - r) + Rabs (mg n U r r)) * (1 + gamma eps (n - r)) * eta).
+  { pose proof (pos_INR (n - r)). pose proof (eta_ge0 _ _ _ M). pose proof (Rabs_pos (mg n U r r)).
+    repeat apply Rmult_le_pos; lra. }
+  exact (op_isum _ _ r n (fun c => mg n U r c) (fun c => vg xh c) (vg b r) Hg Ht P).
+Qed.
+
+(* the Cholesky solves: (L + dL) y^ = b + db  and  (L + dL)^T x^ = b + db *)
+Theorem llt_lower_solve_perturbed n (L b : list R) :
+  length L = (n * n)%nat -> length b = n -> (forall r, (r < n)%nat -> mg n L r r <> 0) -> INR n * eps < 1 ->
+  exists yh (dL : nat -> nat -> R) (db : nat -> R), llt_lower QO n L b = Some yh /\ length yh = n /\
+    forall r, (r < n)%nat ->
+      (forall c, Rabs (dL r c) <= gamma eps (S r) * Rabs (mg n L r c)) /\
+      Rabs (db r) <= (3 * INR (S r) + Rabs (mg n L r r)) * (1 + gamma eps (S r)) * eta /\
+      rsum (fun c => (mg n L r c + dL r c) * vg yh c) (S r) = vg b r + db r.
+Proof.
+  intros LL Lb Hd Hn. destruct (llt_lower_solve_backward_error rnd eps eta tiny M n L b LL Lb Hd Hn) as (yh & E & Ly & P).
+  exists yh, (fun r => op_d (gamma eps (S r)) (S r) (fun c => mg n L r c) (fun c => vg yh c) (vg b r)),
+             (fun r => op_db (gamma eps (S r)) (S r) (fun c => mg n L r c) (fun c => vg yh c) (vg b r)).
+  split; [exact E|]. split; [exact Ly|]. intros r Hr. specialize (P r Hr).
+  assert (Hre : INR (S r) * eps < 1) by (apply (small_k (S r) n); [lia|exact Hn]).
+  pose proof (gamma_ge0 _ _ _ M (S r) Hre) as Hg.
+  assert (Ht : 0 <= (3 * INR (S r) + Rabs (mg n L r r)) * (1 + gamma eps (S r)) * eta).
+  { pose proof (pos_INR (S r)). pose proof (eta_ge0 _ _ _ M). pose proof (Rabs_pos (mg n L r r)).
+    repeat apply Rmult_le_pos; lra. }
+  exact (op_spec _ _ (S r) (fun c => mg n L r c) (fun c => vg yh c) (vg b r) Hg Ht P).
+Qed.
+
+Theorem llt_upper_solve_perturbed n (L b : list R) :
+  length L = (n * n)%nat -> length b = n -> (forall r, (r < n)%nat -> mg n L r r <> 0) -> INR n * eps < 1 ->
+  exists xh (dL : nat -> nat -> R) (db : nat -> R), llt_upper QO n L b = Some xh /\ length xh = n /\
+    forall c, (c < n)%nat ->
+      (forall r, (c <= r)%nat -> Rabs (dL r c) <= gamma eps (n - c) * Rabs (mg n L r c)) /\
+      Rabs (db c) <= (3 * INR (n - c) + Rabs (mg n L c c)) * (1 + gamma eps (n - c)) * eta /\
+      isum (fun r => (mg n L r c + dL r c) * vg xh r) c n = vg b c + db c.
+Proof.
+  intros LL Lb Hd Hn. destruct (llt_upper_solve_backward_error rnd eps eta tiny M n L b LL Lb Hd Hn) as (xh & E & Lx & P).
+  exists xh, (fun r c => op_d (gamma eps (n - c)) n (urow c (fun r => mg n L r c)) (fun r => vg xh r) (vg b c) r),
+             (fun c => op_db (gamma eps (n - c)) n (urow c (fun r => mg n L r c)) (fun r => vg xh r) (vg b c)).
+  split; [exact E|]. split; [exact Lx|]. intros c Hc. specialize (P c Hc).
+  assert (Hre : INR (n - c) * eps < 1) by (apply (small_k (n - c) n); [lia|exact Hn]).
+  pose proof (gamma_ge0 _ _ _ M (n - c) Hre) as Hg.
+  assert (Ht : 0 <= (3 * INR (n - c) + Rabs (mg n L c c)) * (1 + gamma eps (n - c)) * eta).
+  { pose proof (pos_INR (n - c)). pose proof (eta_ge0 _ _ _ M). pose proof (Rabs_pos (mg n L c c)).
+    repeat apply Rmult_le_pos; lra. }
+  exact (op_isum _ _ c n (fun r => mg n L r c) (fun r => vg xh r) (vg b c) Hg Ht P).
+Qed.
+
+(* ============================ the three solve routines: one substitution after the other.
+   Each stage has its own backward error; the FACTORS are taken as given (their own backward error is not
+   part of these statements). *)
+Definition lower_bound (n : nat) (A b yh : list R) : Prop :=
+  forall r, (r < n)%nat ->
+    Rabs (vg b r - (rsum (fun c => mg n A r c * vg yh c) r + vg yh r))
+    <= gamma eps r * (rsum (fun c => Rabs (mg n A r c) * Rabs (vg yh c)) r + Rabs (vg yh r))
+       + 3 * INR r * (1 + gamma eps r) * eta.
+Definition upper_bound (n : nat) (A y xh : list R) : Prop :=
+  forall r, (r < n)%nat ->
+    Rabs (vg y r - isum (fun c => mg n A r c * vg xh c) r n)
+    <= gamma eps (n - r) * isum (fun c => Rabs (mg n A r c) * Rabs (vg xh c)) r n
+       + (3 * INR (n - r) + Rabs (mg n A r r)) * (1 + gamma eps (n - r)) * eta.
+
+(* a_real_plu_solve on the in-place LU storage A: L y^ = P b, U x^ = y^ *)
+Theorem plu_solve_backward_error n (A : list R) (p : list nat) (b x0 Pb : list R) :
+  length A = (n * n)%nat -> plu_apply n p b x0 = Some Pb -> length Pb = n ->
+  (forall r, (r < n)%nat -> mg n A r r <> 0) -> INR n * eps < 1 ->
+  exists yh xh, plu_lower QO n A Pb = Some yh /\ plu_solve QO n A p b x0 = Some xh /\ length xh = n /\
+    lower_bound n A Pb yh /\ upper_bound n A yh xh.
+Proof.
+  intros LA Ea LPb Hd Hn. unfold plu_solve. rewrite Ea.
+  destruct (lower_solve_backward_error rnd eps eta tiny M n A Pb LA LPb Hn) as (yh & E1 & Ly & P1).
+  destruct (upper_solve_backward_error rnd eps eta tiny M n A yh LA Ly Hd Hn) as (xh & E2 & Lx & P2).
+  exists yh, xh. fold QO in E1, E2. rewrite E1. auto.
+Qed.
+
+(* a_real_ldl_solve on the in-place L D L^T storage A: L y^ = b, D L^T x^ = y^ *)
+Theorem ldl_solve_backward_error n (A b : list R) :
+  length A = (n * n)%nat -> length b = n -> (forall r, (r < n)%nat -> mg n A r r <> 0) -> INR n * eps < 1 ->
+  exists yh xh, ldl_lower QO n A b = Some yh /\ ldl_solve QO n A b = Some xh /\ length xh = n /\
+    lower_bound n A b yh /\
+    forall c, (c < n)%nat ->
+      Rabs (vg yh c - mg n A c c * (vg xh c + isum (fun r => mg n A r c * vg xh r) (c + 1) n))
+      <= Rabs (mg n A c c) *
+         (gamma eps (n - c) * (Rabs (vg xh c) + isum (fun r => Rabs (mg n A r c) * Rabs (vg xh r)) (c + 1) n)
+          + 3 * INR (n - c) * (1 + gamma eps (n - c)) * eta).
+Proof.
+  intros LA Lb Hd Hn. unfold ldl_solve, ldl_lower.
+  destruct (lower_solve_backward_error rnd eps eta tiny M n A b LA Lb Hn) as (yh & E1 & Ly & P1).
+  destruct (ldl_upper_solve_backward_error rnd eps eta tiny M n A yh LA Ly Hd Hn) as (xh & E2 & Lx & P2).
+  exists yh, xh. fold QO in E1, E2. rewrite E1. auto.
+Qed.
+
+(* a_real_llt_solve on the in-place Cholesky storage A: L y^ = b, L^T x^ = y^ *)
+Theorem llt_solve_backward_error n (A b : list R) :
+  length A = (n * n)%nat -> length b = n -> (forall r, (r < n)%nat -> mg n A r r <> 0) -> INR n * eps < 1 ->
+  exists yh xh, llt_lower QO n A b = Some yh /\ llt_solve QO n A b = Some xh /\ length xh = n /\
+    (forall r, (r < n)%nat ->
+      Rabs (vg b r - rsum (fun c => mg n A r c * vg yh c) (S r))
+      <= gamma eps (S r) * rsum (fun c => Rabs (mg n A r c) * Rabs (vg yh c)) (S r)
+         + (3 * INR (S r) + Rabs (mg n A r r)) * (1 + gamma eps (S r)) * eta) /\
+    (forall c, (c < n)%nat ->
+      Rabs (vg yh c - isum (fun r => mg n A r c * vg xh r) c n)
+      <= gamma eps (n - c) * isum (fun r => Rabs (mg n A r c) * Rabs (vg xh r)) c n
+         + (3 * INR (n - c) + Rabs (mg n A c c)) * (1 + gamma eps (n - c)) * eta).
+Proof.
+  intros LA Lb Hd Hn. unfold llt_solve.
+  destruct (llt_lower_solve_backward_error rnd eps eta tiny M n A b LA Lb Hd Hn) as (yh & E1 & Ly & P1).
+  destruct (llt_upper_solve_backward_error rnd eps eta tiny M n A yh LA Ly Hd Hn) as (xh & E2 & Lx & P2).
+  exists yh, xh. fold QO in E1, E2. rewrite E1. auto.
+Qed.
+
+End Perturbed.
+
+(* ------------------------------------------------------------------------------------ non-vacuity *)
+(* (1) the identity is a rounding (std_model_id, eps = eta = 0): the bounds collapse to "residual = 0", i.e. the
+   exact-arithmetic theorems of SolveProofs.v are the special case rnd = id of the theorems above *)
+Lemma GG_eps0 k : GG 0 k = 0.
+Proof. unfold GG, ainv. rewrite Rminus_0_r, Rinv_1, pow1. ring. Qed.
+
+Corollary lower_solve_id_exact tiny n (L b : list R) :
+  length L = (n * n)%nat -> length b = n ->
+  exists yh, plu_lower (R_ops tiny) n L b = Some yh /\ length yh = n /\
+    forall r, (r < n)%nat -> nth r b 0 = rsum (fun c => mg n L r c * nth c yh 0) r + nth r yh 0.
+Proof.
+  intros LL Lb.
+  destruct (lower_solve_residual (fun x => x) 0 0 tiny std_model_id n L b LL Lb) as (yh & E & Ly & P).
+  exists yh. split; [exact E|]. split; [exact Ly|]. intros r Hr. specialize (P r Hr).
+  rewrite GG_eps0, Rmult_0_l, Rmult_0_r, Rplus_0_r in P.
+  pose proof (Rabs_pos (nth r b 0 - (rsum (fun c => mg n L r c * nth c yh 0) r + nth r yh 0))) as P0.
+  destruct (Req_dec (nth r b 0 - (rsum (fun c => mg n L r c * nth c yh 0) r + nth r yh 0)) 0) as [Z|Z]; [lra|].
+  apply Rabs_pos_lt in Z. lra.
+Qed.
+
+Corollary upper_solve_id_exact tiny n (U b : list R) :
+  length U = (n * n)%nat -> length b = n -> (forall r, (r < n)%nat -> mg n U r r <> 0) ->
+  exists xh, plu_upper (R_ops tiny) n U b = Some xh /\ length xh = n /\
+    forall r, (r < n)%nat -> nth r b 0 = isum (fun c => mg n U r c * nth c xh 0) r n.
+Proof.
+  intros LU Lb Hd.
+  destruct (upper_solve_residual (fun x => x) 0 0 tiny std_model_id n U b LU Lb Hd) as (xh & E & Lx & P).
+  exists xh. split; [exact E|]. split; [exact Lx|]. intros r Hr. specialize (P r Hr).
+  rewrite GG_eps0, Rmult_0_l, Rmult_0_r, Rplus_0_r in P.
+  pose proof (Rabs_pos (nth r b 0 - isum (fun c => mg n U r c * nth c xh 0) r n)) as P0.
+  destruct (Req_dec (nth r b 0 - isum (fun c => mg n U r c * nth c xh 0) r n) 0) as [Z|Z]; [lra|].
+  apply Rabs_pos_lt in Z. lra.
+Qed.
+
+(* (2) a rounding that is NOT exact: rnd v = v (1 + 1/8)  (std_model_scale: eps = 1/8, eta = 0).
+   L = [1 0; 3 1], b = (1, 1): the computed y^ = (1, -171/64) is not the solution (1, -2); the residual of row 1 is
+   43/64, strictly positive, and it is below the bound of lower_solve_backward_error,
+   gamma_1 (|3||1| + |y^_1|) = (1/7)(363/64) = 363/448  (43/64 = 301/448). *)
+Example lower_2x2_scale :
+  exists y1, plu_lower (Rnd8_ops (fun v => v * (1 + / 8)) 1) 2 [1; 0; 3; 1] [1; 1] = Some [1; y1] /\
+    y1 = - (171 / 64) /\
+    1 - (3 * 1 + y1) = 43 / 64 /\
+    gamma (/ 8) 1 = / 7 /\
+    43 / 64 <= gamma (/ 8) 1 * (Rabs 3 * Rabs 1 + Rabs y1) + 3 * INR 1 * (1 + gamma (/ 8) 1) * 0.
+Proof.
+  eexists. split; [cbn; reflexivity|].
+  assert (G : gamma (/ 8) 1 = / 7) by (unfold gamma; simpl; field).
+  assert (Y : (1 - 3 * 1 * (1 + / 8)) * (1 + / 8) = - (171 / 64)) by field.
+  split; [exact Y|]. split; [rewrite Y; field|]. split; [exact G|].
+  rewrite Y, G. rewrite Rabs_Ropp, !Rabs_pos_eq by lra. simpl. lra.
+Qed.
+
+(* U = [2 1; 0 4], b = (1, 1) with the same rounding: x^_1 = rnd (1/4) = 9/32, x^_0 = rnd (rnd (1 - rnd (9/32)) / 2);
+   the residual of row 0 is not zero and obeys the gamma_2 bound of upper_solve_backward_error *)
+Example upper_2x2_scale :
+  exists x0 x1, plu_upper (Rnd8_ops (fun v => v * (1 + / 8)) 1) 2 [2; 1; 0; 4] [1; 1] = Some [x0; x1] /\
+    x1 = 9 / 32 /\ x0 = 14175 / 32768 /\
+    1 - (2 * x0 + 1 * x1) = - (2399 / 16384) /\
+    Rabs (1 - (2 * x0 + 1 * x1)) <= gamma (/ 8) 2 * (Rabs 2 * Rabs x0 + Rabs 1 * Rabs x1).
+Proof.
+  eexists. eexists. split; [cbn; reflexivity|].
+  assert (G : gamma (/ 8) 2 = / 3) by (unfold gamma; simpl; field).
+  assert (X1 : 1 / 4 * (1 + / 8) = 9 / 32) by field.
+  assert (X0 : (1 - 1 * (1 / 4 * (1 + / 8)) * (1 + / 8)) * (1 + / 8) / 2 * (1 + / 8) = 14175 / 32768) by field.
+  split; [exact X1|]. split; [exact X0|]. rewrite X0, X1, G.
+  split; [field|].
+  replace (1 - (2 * (14175 / 32768) + 1 * (9 / 32))) with (- (2399 / 16384)) by field.
+  rewrite Rabs_Ropp, !Rabs_pos_eq by lra. lra.
 Qed.
